@@ -4,7 +4,7 @@ import json, os, sys
 HERE = os.path.dirname(os.path.abspath(__file__))
 sys.path.insert(0, HERE)
 from plans import PLANS
-from manifest_meta import META, NOT_APPLICABLE, HOOK_COMMITS
+from manifest_meta import META, NOT_APPLICABLE, HOOK_COMMITS, FIX_COMMITS
 
 checks = []
 for pid in sorted(PLANS):
@@ -40,7 +40,9 @@ manifest = {
     ],
     "checks": checks,
     "not_applicable": [{"property_id": p, "reason": r} for p, r in sorted(NOT_APPLICABLE.items()) if p not in PLANS],
-    "notes": "Contract-based deductive verification (Verus + Kani). See DESIGN.md. exit 2 of ./check = undecided (never an alarm).",
+    "notes": "Contract-based deductive verification (Verus + Kani). See DESIGN.md (section 12 = as built). exit 2 of ./check = undecided (never an alarm). "
+             "Genuine defects repaired in /repo by fix: commits " + ", ".join(FIX_COMMITS) + " (KNOWN_FINDINGS.txt, findings/before_fix/). "
+             "Seeded breaking changes and which check catches them: seeded/*/meta.json, DESIGN.md section 12.9.",
 }
 json.dump(manifest, open(os.path.join(os.path.dirname(HERE), "MANIFEST.json"), "w"), indent=1)
 print("MANIFEST.json: %d checks, %d not applicable" % (len(checks), len(manifest["not_applicable"])))
